@@ -1,7 +1,20 @@
 import Fv.Lemmas.CacheFrame
+import Fv.Lemmas.CacheIter
 import Fv.Props.C13
 /-
 C17 — iteration and snapshots enumerate exactly the live entries.
+
+* `C17_cursor_exact`, `C17_cursor_fuel_ok`: the batching cursor of `Iter` / `IterStream`, for all
+  shard counts, shard contents, batch sizes and key orders.
+* `C17_iter_exact`, `C17_iter_each_live_once`: `iter_with_batch_size` consumed to the end.
+* `C17_snapshot_iter_exact`, `C17_snapshot_iter_each_live_once`: `SnapshotIter` consumed to the end.
+* `C17_restore_roundtrip`, `C17_restore_fields`, `C17_restore_nodup`, `C17_restore_cost`,
+  `C17_snapshot_restore_api`: `to_snapshot` followed by `build_from_snapshot`.
+* `C17_restore_policy_fresh` (+ witness `C17_fails_F11`): restored entries are known to no policy.
+
+"No clock advance in between" is `inter = none`.  With a clock advance between two `next()`
+calls the batching iterator yields entries that were live when their batch was buffered, which
+the tie (harness vs. model) covers; the theorems here are about an iteration at one instant.
 -/
 namespace Fv.Props.C17
 open Fv.Cache
@@ -27,6 +40,283 @@ theorem snapshot_entries (cfg : Cfg) (m : List (Nat × Entry)) (now : Nat) (p : 
     refine ⟨(k, e), hm, ?_⟩
     simp [hx]
     cases p; simp_all
+
+variable {P : Type}
+
+/-! ### 1. cursor arithmetic -/
+
+/-- CURSOR ARITHMETIC.  For every shard count `nshards` (0 included), every per-shard key order
+    `keysOf` (shards may be empty, keys may repeat), every batch size `≥ 1`, every map and every
+    start time: driving `next()` to the end with no clock advance in between leaves the clock
+    alone and yields exactly the live entries of `(range nshards).flatMap keysOf`, in that order.
+    Sufficient-fuel conditions, stated explicitly: the key lists are together no longer than the
+    map (this is what makes `refill`'s hard-wired loop bound `nshards + m.length + 1` enough:
+    the measure `(nshards - shard) + remaining keys` drops on every loop iteration) and the
+    driver's fuel exceeds their total length (one `next()` per yielded item plus the final one).
+    A batch that ends exactly at a shard end, empty shards, and batches that consist only of
+    expired entries (the loop keeps going until the buffer has `batch` items or the shards are
+    exhausted) are all instances of this one statement. -/
+theorem C17_cursor_exact (nshards batch : Nat) (keysOf : Nat → List Nat) (m : List (Nat × Entry)) (tti : Option Nat)
+    (now fuel : Nat) (hb : 1 ≤ batch)
+    (hall : ((List.range nshards).flatMap keysOf).length ≤ m.length)
+    (hfuel : ((List.range nshards).flatMap keysOf).length + 1 ≤ fuel) :
+    iterDrive nshards batch keysOf m tti fuel now none {} [] =
+      (now, liveOf m now tti ((List.range nshards).flatMap keysOf)) :=
+  C17L.iterDrive_exact nshards batch keysOf m tti now fuel hb hall hfuel
+
+/-- the fuel the model passes (`2 * m.length + 2` to `iterDrive`, `nshards + m.length + 1` to the
+    refill loop) meets the conditions of `C17_cursor_exact` for the real key lists
+    `State.shardKeys`, whatever the hash-order oracle says and even if the map had duplicate keys -/
+theorem C17_cursor_fuel_ok (cfg : Cfg) (s : State P) (ord : List Nat) :
+    ((List.range cfg.nshards).flatMap (fun i => s.shardKeys cfg ord i)).length ≤ s.map.length ∧
+    ((List.range cfg.nshards).flatMap (fun i => s.shardKeys cfg ord i)).length + 1 ≤ 2 * s.map.length + 2 := by
+  have h := C17L.shardKeys_allKeys_length_le cfg s ord
+  unfold C17L.allKeys at h
+  omega
+
+/-- the example map: keys 0, 4, 8 hash to shard 0 of 4, key 1 to shard 1, shards 2 and 3 are
+    empty; key 4 (in the middle of shard 0) has a TTL deadline of 5 -/
+def exMap : List (Nat × Entry) :=
+  [(0, { vid := 10, cost := 1 }), (4, { vid := 14, cost := 2, expiresAt := 5 }),
+   (8, { vid := 18, cost := 3, expiresAt := 30 }), (1, { vid := 11, cost := 4 })]
+
+def exKeys (i : Nat) : List Nat := if i = 0 then [8, 4, 0] else if i = 1 then [1] else []
+
+-- non-vacuity of `C17_cursor_exact`: batch size 1, 4 shards two of them empty, expired entry in the middle
+example : 1 ≤ 1 ∧ ((List.range 4).flatMap exKeys).length ≤ exMap.length ∧ ((List.range 4).flatMap exKeys).length + 1 ≤ 10 := by decide
+example : iterDrive 4 1 exKeys exMap none 10 7 none {} [] = (7, [(8, 18), (0, 10), (1, 11)]) := by decide
+-- batch = shard size (the batch ends exactly at the end of shard 0)
+example : iterDrive 4 3 exKeys exMap none 10 7 none {} [] = (7, [(8, 18), (0, 10), (1, 11)]) := by decide
+-- batch larger than everything; nothing expired yet at time 3
+example : iterDrive 4 64 exKeys exMap none 10 3 none {} [] = (3, [(8, 18), (4, 14), (0, 10), (1, 11)]) := by decide
+-- a batch consisting only of expired entries (time 40: keys 4 and 8 are expired), batch size 2
+example : iterDrive 4 2 (fun i => if i = 0 then [8, 4, 0] else if i = 1 then [1] else []) exMap none 10 40 none {} [] =
+    (40, [(0, 10), (1, 11)]) := by decide
+
+/-! ### 2./3. `iter_with_batch_size` consumed to the end -/
+
+/-- `iter()` / `iter_with_batch_size(batch)` (any batch, `0` is clamped to 1) driven to the end
+    at one instant returns the flushed state unchanged and yields exactly the live entries of the
+    flushed map, shard by shard, each shard in the oracle's hash order.  No hypothesis at all. -/
+theorem C17_iter_all (cfg : Cfg) (ops : PolicyOps P) (o : Oracle) (s : State P) (batch : Nat) :
+    s.iterAll cfg ops o batch none =
+      (s.flush cfg ops o,
+       liveOf (s.flush cfg ops o).map (s.flush cfg ops o).now cfg.tti
+         ((List.range cfg.nshards).flatMap (fun i => (s.flush cfg ops o).shardKeys cfg o.ord i))) := by
+  have hf := C17_cursor_fuel_ok cfg (s.flush cfg ops o) o.ord
+  have h := C17_cursor_exact cfg.nshards (max batch 1) (fun i => (s.flush cfg ops o).shardKeys cfg o.ord i)
+    (s.flush cfg ops o).map cfg.tti (s.flush cfg ops o).now (2 * (s.flush cfg ops o).map.length + 2)
+    (Nat.le_max_right _ _) hf.1 hf.2
+  unfold State.iterAll
+  simp only [h]
+
+theorem C17_iter_exact (cfg : Cfg) (ops : PolicyOps P) (o : Oracle) (s : State P) (batch : Nat) :
+    (s.iterAll cfg ops o batch none).2 =
+      liveOf (s.flush cfg ops o).map (s.flush cfg ops o).now cfg.tti
+        ((List.range cfg.nshards).flatMap (fun i => (s.flush cfg ops o).shardKeys cfg o.ord i)) := by
+  rw [C17_iter_all]
+
+/-- what the live entries of the walked keys are, for a map with distinct keys and at least one
+    shard: distinct keys, and `(k, v)` is listed iff `k` is bound to a non-expired entry with value `v` -/
+theorem live_walk_spec (cfg : Cfg) (s1 : State P) (ord : List Nat) (hn : 0 < cfg.nshards)
+    (hwf : (s1.map.map (·.1)).Nodup) :
+    ((liveOf s1.map s1.now cfg.tti
+        ((List.range cfg.nshards).flatMap (fun i => s1.shardKeys cfg ord i))).map (·.1)).Nodup ∧
+    ∀ k v, (k, v) ∈ liveOf s1.map s1.now cfg.tti
+        ((List.range cfg.nshards).flatMap (fun i => s1.shardKeys cfg ord i)) ↔
+      ∃ e, (k, e) ∈ s1.map ∧ e.vid = v ∧ e.isExpired s1.now cfg.tti = false := by
+  refine ⟨List.Nodup.sublist (C17L.liveOf_keys_sublist ..) (C17L.shardKeys_allKeys_nodup cfg s1 ord hwf), ?_⟩
+  intro k v
+  rw [C17L.mem_liveOf]
+  have hmem := C17L.mem_shardKeys_allKeys cfg s1 ord hn k
+  unfold C17L.allKeys at hmem
+  rw [hmem]
+  constructor
+  · rintro ⟨_, e, he, hx, hv⟩
+    exact ⟨e, lookup_mem he, hv, hx⟩
+  · rintro ⟨e, he, hv, hx⟩
+    exact ⟨List.mem_map.2 ⟨(k, e), he, rfl⟩, e, C17L.lookup_of_mem_nodup hwf he, hx, hv⟩
+
+/-- every live entry exactly once with its current value, expired ones omitted, whatever the
+    hash-order oracle and the batch size are (`s1` = the state after the introspection flush,
+    whose map has distinct keys) -/
+theorem C17_iter_each_live_once (cfg : Cfg) (ops : PolicyOps P) (o : Oracle) (s : State P) (batch : Nat)
+    (hn : 0 < cfg.nshards) (hwf : ((s.flush cfg ops o).map.map (·.1)).Nodup) :
+    ((s.iterAll cfg ops o batch none).2.map (·.1)).Nodup ∧
+    ∀ k v, (k, v) ∈ (s.iterAll cfg ops o batch none).2 ↔
+      ∃ e, (k, e) ∈ (s.flush cfg ops o).map ∧ e.vid = v ∧
+        e.isExpired (s.flush cfg ops o).now cfg.tti = false := by
+  rw [C17_iter_exact]
+  exact live_walk_spec cfg (s.flush cfg ops o) o.ord hn hwf
+
+def exCfg : Cfg := { nshards := 4 }
+def exState : State Unit := { State.fresh exCfg () 7 with map := exMap }
+
+-- non-vacuity: 4 shards (two empty), expired key 4 in the middle of shard 0, hash order from the oracle
+example : 0 < exCfg.nshards ∧ ((exState.flush exCfg nullOps { ord := [8, 4, 0, 1] }).map.map (·.1)).Nodup := by decide
+example : (exState.iterAll exCfg nullOps { ord := [8, 4, 0, 1] } 1 none).2 = [(8, 18), (0, 10), (1, 11)] := by decide
+example : (exState.iterAll exCfg nullOps { ord := [8, 4, 0, 1] } 3 none).2 = [(8, 18), (0, 10), (1, 11)] := by decide
+example : (exState.iterAll exCfg nullOps { ord := [] } 0 none).2 = [(0, 10), (8, 18), (1, 11)] := by decide
+
+/-! ### 4. `SnapshotIter` consumed to the end -/
+
+/-- the per-shard key-snapshot iterator looks every key up with `fetch`, which re-`put`s the key
+    it hits (same value, refreshed idle clock) — the bindings and expiry status of the OTHER keys
+    do not change while iterating, and with distinct keys every key is visited once.  So at one
+    instant it yields the same list as the batching iterator, and the clock is left alone. -/
+theorem C17_snapshot_iter_exact (cfg : Cfg) (ops : PolicyOps P) (o : Oracle) (s : State P)
+    (hwf : ((s.flush cfg ops o).map.map (·.1)).Nodup) :
+    (s.iterSnapshotAll cfg ops o none).2 =
+      liveOf (s.flush cfg ops o).map (s.flush cfg ops o).now cfg.tti
+        ((List.range cfg.nshards).flatMap (fun i => (s.flush cfg ops o).shardKeys cfg o.ord i)) ∧
+    (s.iterSnapshotAll cfg ops o none).1.now = (s.flush cfg ops o).now := by
+  have hnd := C17L.shardKeys_allKeys_nodup cfg (s.flush cfg ops o) o.ord hwf
+  unfold C17L.allKeys at hnd
+  have h := C17L.snapDrive_none cfg _ (s.flush cfg ops o) [] hnd
+  unfold State.iterSnapshotAll
+  simpa using h
+
+theorem C17_snapshot_iter_each_live_once (cfg : Cfg) (ops : PolicyOps P) (o : Oracle) (s : State P)
+    (hn : 0 < cfg.nshards) (hwf : ((s.flush cfg ops o).map.map (·.1)).Nodup) :
+    ((s.iterSnapshotAll cfg ops o none).2.map (·.1)).Nodup ∧
+    ∀ k v, (k, v) ∈ (s.iterSnapshotAll cfg ops o none).2 ↔
+      ∃ e, (k, e) ∈ (s.flush cfg ops o).map ∧ e.vid = v ∧
+        e.isExpired (s.flush cfg ops o).now cfg.tti = false := by
+  rw [(C17_snapshot_iter_exact cfg ops o s hwf).1]
+  exact live_walk_spec cfg (s.flush cfg ops o) o.ord hn hwf
+
+def exCfgTti : Cfg := { nshards := 4, tti := some 100, trackReads := true }
+def exStateTti : State Unit := { State.fresh exCfgTti () 7 with map := exMap }
+
+example : 0 < exCfgTti.nshards ∧ ((exStateTti.flush exCfgTti nullOps { ord := [8, 4, 0, 1] }).map.map (·.1)).Nodup := by decide
+example : (exStateTti.iterSnapshotAll exCfgTti nullOps { ord := [8, 4, 0, 1] } none).2 = [(8, 18), (0, 10), (1, 11)] := by decide
+-- the hits refreshed the idle clocks of exactly the yielded keys
+example : (exStateTti.iterSnapshotAll exCfgTti nullOps { ord := [8, 4, 0, 1] } none).1.map.map (fun p => (p.1, p.2.lastAccessed)) =
+    [(1, 7), (0, 7), (8, 7), (4, 0)] := by decide
+
+/-! ### 5. snapshot round trip
+
+`to_snapshot` is `snapshotOf` applied to the flushed map (`C17_snapshot_restore_api`); the
+serialisation round trip between `to_snapshot` and `build_from_snapshot` is the identity in the
+model (the harness performs the real bincode round trip and the tie compares the results). -/
+
+/-- ROUND TRIP.  Snapshot a map with distinct keys at `now`, restore at `now'`: the restored map
+    binds `k` to `e'` iff the original bound `k` to some non-expired `e` and `e'` is `e` with the
+    same value and cost, no timer, not pinned, a fresh idle clock, and a TTL deadline that leaves
+    exactly the lifetime that was left at snapshot time (`restoredOf`). -/
+theorem C17_restore_roundtrip (cfg : Cfg) (p0 : P) (m : List (Nat × Entry)) (now now' : Nat)
+    (hn : (m.map (·.1)).Nodup) (k : Nat) (e' : Entry) :
+    (k, e') ∈ (State.restore cfg p0 now' (snapshotOf cfg m now)).map ↔
+      ∃ e, (k, e) ∈ m ∧ e.isExpired now cfg.tti = false ∧ e' = C17L.restoredOf cfg now now' e :=
+  C17L.mem_restore_snapshot cfg p0 m now now' hn k e'
+
+/-- the fields of a restored entry, spelled out: same key ↦ value mapping, same cost, no TTL stays
+    no TTL, a TTL keeps its remaining lifetime (so it is no longer than the original: the restored
+    deadline is `now' + (expiresAt - now)` with `now < expiresAt`), no timer handle -/
+theorem C17_restore_fields (cfg : Cfg) (p0 : P) (m : List (Nat × Entry)) (now now' : Nat)
+    (hn : (m.map (·.1)).Nodup) (k : Nat) (e' : Entry)
+    (h : (k, e') ∈ (State.restore cfg p0 now' (snapshotOf cfg m now)).map) :
+    ∃ e, (k, e) ∈ m ∧ e.isExpired now cfg.tti = false ∧ e'.vid = e.vid ∧ e'.cost = e.cost ∧
+      (e.expiresAt = 0 → e'.expiresAt = 0) ∧
+      (e.expiresAt ≠ 0 → e'.expiresAt = now' + (e.expiresAt - now) ∧ now < e.expiresAt ∧
+        e'.expiresAt - now' = e.expiresAt - now) ∧
+      e'.timer = none ∧ e'.pinned = false ∧ e'.isExpired now' none = false := by
+  obtain ⟨e, hm, hx, rfl⟩ := (C17_restore_roundtrip cfg p0 m now now' hn k e').1 h
+  have hx' := (isExpired_false_iff e now cfg.tti).1 hx
+  refine ⟨e, hm, hx, rfl, rfl, ?_, ?_, rfl, rfl, ?_⟩
+  · intro h0; simp [C17L.restoredOf, h0]
+  · intro h0
+    have : now < e.expiresAt := by omega
+    simp only [C17L.restoredOf, h0, if_false]
+    exact ⟨trivial, this, by omega⟩
+  · rw [isExpired_false_iff]
+    refine ⟨?_, by intro d hd; cases hd⟩
+    by_cases h0 : e.expiresAt = 0
+    · simp [C17L.restoredOf, h0]
+    · simp only [C17L.restoredOf, h0, if_false]; omega
+
+/-- every live binding of the original comes back (the `←` direction of the round trip, spelled out) -/
+theorem C17_restore_complete (cfg : Cfg) (p0 : P) (m : List (Nat × Entry)) (now now' : Nat)
+    (hn : (m.map (·.1)).Nodup) (k : Nat) (e : Entry) (hm : (k, e) ∈ m) (hx : e.isExpired now cfg.tti = false) :
+    ∃ e', (k, e') ∈ (State.restore cfg p0 now' (snapshotOf cfg m now)).map ∧ e'.vid = e.vid ∧ e'.cost = e.cost :=
+  ⟨C17L.restoredOf cfg now now' e, (C17_restore_roundtrip cfg p0 m now now' hn k _).2 ⟨e, hm, hx, rfl⟩, rfl, rfl⟩
+
+/-- the restored map has distinct keys (for every snapshot, even one with repeated keys) -/
+theorem C17_restore_nodup (cfg : Cfg) (p0 : P) (now : Nat) (sn : Snapshot) :
+    ((State.restore cfg p0 now sn).map.map (·.1)).Nodup :=
+  C17L.restore_keys_nodup cfg p0 now sn
+
+/-- `current_cost` of the restored cache is the (wrapping) cost sum of the snapshot's entries -/
+theorem C17_restore_cost (cfg : Cfg) (p0 : P) (now : Nat) (sn : Snapshot) :
+    (State.restore cfg p0 now sn).met.currentCost = ((sn.entries.map (·.cost)).sum) % U64 :=
+  C17L.restore_currentCost cfg p0 now sn
+
+/-- the API-level composition: `to_snapshot` is `snapshotOf` of the flushed map at the flushed
+    clock, so the round-trip theorems apply to `restore (toSnapshot s).2` verbatim -/
+theorem C17_snapshot_restore_api (cfg : Cfg) (ops : PolicyOps P) (o : Oracle) (s : State P) (p0 : P) (now' : Nat)
+    (hwf : ((s.flush cfg ops o).map.map (·.1)).Nodup) (k : Nat) (e' : Entry) :
+    (k, e') ∈ (State.restore cfg p0 now' (s.toSnapshot cfg ops o).2).map ↔
+      ∃ e, (k, e) ∈ (s.flush cfg ops o).map ∧ e.isExpired (s.flush cfg ops o).now cfg.tti = false ∧
+        e' = C17L.restoredOf cfg (s.flush cfg ops o).now now' e :=
+  C17_restore_roundtrip cfg p0 (s.flush cfg ops o).map (s.flush cfg ops o).now now' hwf k e'
+
+-- non-vacuity: snapshot at 7 (key 4 expired), restore at 20: key 8 had 23 left, gets deadline 43
+example : (exMap.map (·.1)).Nodup := by decide
+example : (State.restore exCfg () 20 (snapshotOf exCfg exMap 7)).map =
+    [(1, { vid := 11, cost := 4 }), (8, { vid := 18, cost := 3, expiresAt := 43 }), (0, { vid := 10, cost := 1 })] := by decide
+example : (State.restore exCfg () 20 (snapshotOf exCfg exMap 7)).met.currentCost = 8 := by decide
+-- hypotheses of `C17_restore_complete`: a live binding of the original
+example : (8, ({ vid := 18, cost := 3, expiresAt := 30 } : Entry)) ∈ exMap ∧
+    ({ vid := 18, cost := 3, expiresAt := 30 } : Entry).isExpired 7 exCfg.tti = false := by decide
+example : (State.restore exCfg () 20 (exState.toSnapshot exCfg nullOps {}).2).map.map (·.1) = [1, 8, 0] := by decide
+
+/-! ### 6. F11: restored entries are never admitted to a policy -/
+
+/-- in the state `build_from_snapshot` produces, every shard has an empty write-event buffer, an
+    empty read batch and a FRESH policy `p0`, and no policy call was made: nothing will ever tell a
+    policy about the restored keys, so capacity eviction cannot choose them (`C17_fails_F11`) -/
+theorem C17_restore_policy_fresh (cfg : Cfg) (p0 : P) (now : Nat) (sn : Snapshot) :
+    (∀ a, a ∈ (State.restore cfg p0 now sn).aux → a.events = [] ∧ a.batch = [] ∧ a.policy = p0) ∧
+    (State.restore cfg p0 now sn).plog = [] ∧ (State.restore cfg p0 now sn).aux.length = cfg.nshards :=
+  ⟨C17L.restore_aux cfg p0 now sn, rfl, by simp [State.restore, State.fresh, freshAux]⟩
+
+example : (State.restore exCfg () 20 (snapshotOf exCfg exMap 7)).aux.length = 4 := by decide
+
+theorem lru_evict_init (n : Nat) : Lru.evict Lru.init n = (Lru.init, [], 0) := by
+  cases n with
+  | zero => rfl
+  | succ n => simp [Lru.evict, Lru.init, Lru.evictLoop, LruList.popBack]
+
+/-- the capacity pass on a state whose LRU policies are all still fresh finds no victim: the map
+    is left alone however far `current_cost` is above the capacity -/
+theorem cleanupCapacity_fresh_lru (cfg : Cfg) (o : Oracle) (s : State Lru.State) (i : Nat)
+    (hp : ∀ a, a ∈ s.aux → a.policy = Lru.init) :
+    (s.cleanupCapacity cfg lruOps o i).map = s.map := by
+  unfold State.cleanupCapacity
+  dsimp only
+  split
+  · rfl
+  · unfold State.polEvict
+    cases ha : s.aux[i]? with
+    | none => rfl
+    | some a =>
+      have : a.policy = Lru.init := hp a (List.mem_of_getElem? ha)
+      simp [lruOps, this, lru_evict_init]
+
+/-- F11 explained for LRU: in a freshly restored cache the capacity pass of every shard removes
+    nothing, whatever the restored cost and the capacity are (the general statement behind the
+    witness `C17_fails_F11` below) -/
+theorem C17_restore_capacity_pass_noop (cfg : Cfg) (o : Oracle) (now : Nat) (sn : Snapshot) (i : Nat) :
+    ((State.restore cfg Lru.init now sn).cleanupCapacity cfg lruOps o i).map =
+      (State.restore cfg Lru.init now sn).map :=
+  cleanupCapacity_fresh_lru cfg o _ i (fun a ha => (C17L.restore_aux cfg Lru.init now sn a ha).2.2)
+
+-- non-vacuity: five unit entries restored into a capacity-3 cache: over capacity, nothing removed
+example : (State.restore { capacity := 3 } Lru.init 0 (snapshotOf { capacity := 3 }
+      [(0, { vid := 100, cost := 1 }), (1, { vid := 101, cost := 1 }), (2, { vid := 102, cost := 1 }),
+       (3, { vid := 103, cost := 1 }), (4, { vid := 104, cost := 1 })] 0)).met.currentCost = 5 := by decide
+example : (State.restore { capacity := 3 } Lru.init 0 (snapshotOf { capacity := 3 }
+      [(0, { vid := 100, cost := 1 })] 0)).aux.map (·.policy) = [Lru.init] := by decide
 
 def cfgLru3 : Cfg := { capacity := 3, trackReads := true }
 
